@@ -44,9 +44,15 @@ pub fn issue_creds(ctx: &mut Ctx, n: usize, tag: u64) -> Vec<Cred> {
     let cfg = cfg(ctx.tier);
     let mut pending = vec![];
     let mut reqs = vec![];
+    let specials = special_flows(&mut ctx.rng.fork(tag + 9_999_991), ctx.tier);
     for i in 0..n {
         let mut r = ctx.rng.fork(tag + i as u64);
         let mut f = gen_flow(&mut r, &cfg);
+        if i % 6 == 5 && !specials.is_empty() {
+            // names that look like syntax, a user-supplied cnf, deep chains (rotating with the seed)
+            f = specials[(i / 6 + ctx.seed as usize) % specials.len()].clone();
+            ctx.count("credential.special_claim_set");
+        }
         // a credential without any hidden claim exercises only the forged / garbage classes: keep a few
         let mut tries = 0;
         while matches!(f.issue.strategy, Strategy::None) && tries < 4 && r.chance(9, 10) {
